@@ -889,3 +889,4 @@ M("C14", CC, """                    self.rec(expr.left, PREC_SHIFT),
 M("C14", CC, """                return self.parenthesize_if_needed(
                         self.rec(square, PREC_NONE),
                         enclosing_prec, PREC_PRODUCT - 1)""", """                return self.rec(square, enclosing_prec)""", "revert of fix d9ec33f (square grouping)", shards=2)
+M("C14", CC, """                return self.rec(expr.base, max(enclosing_prec, PREC_POWER))""", """                return self.rec(expr.base, enclosing_prec)""", "revert of fix d50f038 (base**1 grouping)", shards=2)
